@@ -1187,6 +1187,22 @@ func (fr *frame) runInvariantLoop(l *loop, spec *contract.LoopSpec, iter []int) 
 
 	// dry run to find the pseudo-variables the body writes
 	written := fr.dryRunLoop(l, it, pre, phis)
+	// second dry run: heaps that the body writes only through single-cell stores at loop-invariant
+	// locations (result cells of named results, a one-element read buffer, ...) are havocked at those
+	// cells only, which keeps everything else about them across the loop without an invariant
+	var cells map[string][]cellWrite
+	var whole map[string]bool
+	mark := 0
+	if len(spec.Modifies) == 0 {
+		var w2 map[string]bool
+		w2, cells, whole, mark = fr.dryRunLoop2(l, it, pre, phis, written)
+		for n := range w2 {
+			if !written[n] {
+				written[n] = true
+				whole[n] = true
+			}
+		}
+	}
 
 	// the real header: havocked state
 	hdr.preds = []*edge{{from: pre, fromBlk: nil, cond: pre.alive}}
@@ -1207,6 +1223,29 @@ func (fr *frame) runInvariantLoop(l *loop, spec *contract.LoopSpec, iter []int) 
 		old := pre.pvSortOf(n)
 		if old == nil {
 			continue
+		}
+		if cw := cells[n]; len(cw) > 0 && len(cw) <= 8 && !whole[n] {
+			inv := true
+			for _, w := range cw {
+				for _, ix := range w.idxs {
+					inv = inv && loopInvariantTerm(ix, mark)
+				}
+			}
+			if inv {
+				h := pre.getPV(n, old)
+				for _, w := range cw {
+					var rec func(a *smt.Term, k int) *smt.Term
+					rec = func(a *smt.Term, k int) *smt.Term {
+						if k == len(w.idxs)-1 {
+							return c.Store(a, w.idxs[k], c.Fresh(n+".cell", w.leaf))
+						}
+						return c.Store(a, w.idxs[k], rec(c.Select(a, w.idxs[k]), k+1))
+					}
+					h = rec(h, 0)
+				}
+				hdr.pv[n] = h
+				continue
+			}
 		}
 		hdr.pv[n] = c.Fresh(n+".loop", old)
 	}
@@ -1271,8 +1310,26 @@ func (n *node) pvSortOf(name string) *smt.Sort {
 // dryRunLoop executes the loop body once on a scratch copy of the frame's node table to learn which
 // pseudo-variables it writes. Obligations and facts produced by the dry run are discarded.
 func (fr *frame) dryRunLoop(l *loop, it []int, pre *node, phis []*ssa.Phi) map[string]bool {
+	w, _, _, _ := fr.dryRunLoop2(l, it, pre, phis, nil)
+	return w
+}
+
+// dryRunLoop2 with havoc != nil is the second dry run: the pseudo-variables in havoc (those the first dry
+// run found written) start the body as fresh variables, so that every term depending on loop-variant state
+// contains a variable created after the returned mark. It also returns the heap cells written and the
+// heaps written wholesale.
+func (fr *frame) dryRunLoop2(l *loop, it []int, pre *node, phis []*ssa.Phi, havoc map[string]bool) (map[string]bool, map[string][]cellWrite, map[string]bool, int) {
 	r := fr.r
 	c := r.C()
+	savedCells, savedWhole := r.cellLog, r.wholeLog
+	defer func() { r.cellLog, r.wholeLog = savedCells, savedWhole }()
+	mark := 0
+	if havoc != nil {
+		r.cellLog, r.wholeLog = map[string][]cellWrite{}, map[string]bool{}
+		mark = c.Fresh("dry.mark", smt.Int).ID
+	} else {
+		r.cellLog, r.wholeLog = nil, nil
+	}
 	savedNodes := fr.nodes
 	savedFacts := r.facts
 	savedWritten := r.written
@@ -1293,6 +1350,11 @@ func (fr *frame) dryRunLoop(l *loop, it []int, pre *node, phis []*ssa.Phi) map[s
 	hdr.preds = []*edge{{from: pre, cond: pre.alive}}
 	hdr.guard = pre.alive
 	hdr.alive = pre.alive
+	for n := range havoc {
+		if s := pre.pvSortOf(n); s != nil {
+			hdr.pv[n] = c.Fresh(n+".dry", s)
+		}
+	}
 	for _, p := range phis {
 		v, _ := r.freshValue(p.Comment+".dry", p.Type())
 		hdr.vals[p] = v
@@ -1324,8 +1386,18 @@ func (fr *frame) dryRunLoop(l *loop, it []int, pre *node, phis []*ssa.Phi) map[s
 			savedWritten[k] = true
 		}
 	}
-	_ = c
-	return w
+	return w, r.cellLog, r.wholeLog, mark
+}
+
+// loopInvariantTerm: t mentions no variable created at or after mark (so it denotes the same value at
+// every iteration of the loop whose second dry run started at mark).
+func loopInvariantTerm(t *smt.Term, mark int) bool {
+	for _, v := range smt.FreeVars(t) {
+		if v.ID >= mark {
+			return false
+		}
+	}
+	return !t.HasBound
 }
 
 // loopEnv: expression environment at a loop head: parameters, header phis by source name, debug-named values.
